@@ -1,3 +1,4 @@
+import ast
 from typing import Iterator
 
 from inline_snapshot._adapter.adapter import adapter_map
@@ -30,7 +31,23 @@ class UndecidedValue(GenericValue):
 
     def _get_changes(self) -> Iterator[Change]:
 
+        def has_star_expression(node):
+            if isinstance(node, (ast.List, ast.Tuple)):
+                return any(isinstance(e, ast.Starred) for e in node.elts)
+            if isinstance(node, ast.Dict):
+                return any(key is None for key in node.keys)
+            if isinstance(node, ast.Call):
+                return any(isinstance(arg, ast.Starred) for arg in node.args) or any(
+                    kw.arg is None for kw in node.keywords
+                )
+            return False
+
         def handle(node, obj):
+
+            if isinstance(node, ast.JoinedStr) or has_star_expression(node):
+                # f-strings and star-expressions are not changed,
+                # like in snapshots which are compared
+                return
 
             adapter = get_adapter_type(obj)
             if adapter is not None and hasattr(adapter, "items"):
